@@ -8,6 +8,7 @@ splitting of quote-free text; (4) string form and argv form are
 indistinguishable to parser and resolver, option tokens = tokens before '--'.
 """
 import itertools
+import os
 import sys
 
 from rv import repo
@@ -62,7 +63,7 @@ class StepMonitor(object):
         mon.set_events(self.TOOL, mon.events.PY_START)
 
     def _start(self, code, offset):
-        if code.co_filename != self.filename:
+        if not code.co_filename.startswith(self.filename):
             return sys.monitoring.DISABLE
         self.steps += 1
         if self.steps > self.budget:
@@ -190,7 +191,7 @@ def run(sh, spec):
     import clikit.args.token_parser as tp
     from clikit.args import StringArgs
 
-    mon = StepMonitor(tp.__file__)
+    mon = StepMonitor(os.path.dirname(tp.__file__) + os.sep)  # every function of the clikit.args package counts as a scanner step
     try:
         part = spec["part"]
         if part == "strings":
@@ -330,7 +331,7 @@ def replay(sh, case):
     import clikit.args.token_parser as tp
     from clikit.args import StringArgs
 
-    mon = StepMonitor(tp.__file__)
+    mon = StepMonitor(os.path.dirname(tp.__file__) + os.sep)  # every function of the clikit.args package counts as a scanner step
     try:
         if case["kind"] == "string":
             check_string(sh, mon, StringArgs, case["string"])
